@@ -325,6 +325,18 @@ func (k *Checker) checkCampaignStart(n *Node, pre, post *raft.VerifState, ctx *c
 	if others > 0 {
 		k.c.stats.probe("simultaneous_candidates")
 	}
+	if len(post.VotersOutgoing) > 0 {
+		k.c.stats.probe("campaign_in_joint_config")
+		only := 0
+		for _, v := range post.VotersOutgoing {
+			if !inSet(post.Voters, v) {
+				only++
+			}
+		}
+		if only >= 2 {
+			k.c.stats.probe("campaign_in_joint_config_two_outgoing_only_voters")
+		}
+	}
 }
 
 // checkVoteStep is C02 el.up_to_date: a step that records a real vote for a
